@@ -625,6 +625,15 @@ pub fn join_attempt(rng: &mut Rng, h: &mut Hist, accept_pct: u64) -> bool {
         }
         let root = h.root;
         let acc = build_join_accept(&root, devaddr, dls, rxd, &cf);
+        if acc.len() == 33 && rng.chance(1, 2) {
+            // the genuine CFList-bearing accept with one bit flipped in its FIRST ciphertext block: ECB
+            // leaves the second block (most of the CFList and the MIC) intact, the MIC no longer
+            // verifies — nothing of it may be applied (not even the CFList)
+            let mut b = acc.clone();
+            let i = 8 + rng.below(128) as usize;
+            b[i / 8] ^= 1 << (i % 8);
+            h.rx_bytes(w, 0, &b, None);
+        }
         if rng.chance(1, 3) {
             // the genuine accept with its MIC off in a cancelling pattern: the MIC is inside the
             // encrypted part, so tamper the plaintext and re-encrypt (reference codec)
